@@ -88,22 +88,37 @@ func allPos(n int) []int {
 	return p
 }
 
-func buildBases(thorough bool) []base {
-	var l []base
-	add := func(b base) {
-		if len(b.enc) <= 600 {
-			b.pos8 = allPos(len(b.enc))
-		} else if thorough {
-			b.pos8 = allPos(len(b.enc))
-		} else {
-			b.pos8 = structural(&b)
-		}
-		l = append(l, b)
+// baseSpec is a lazily built base: workers that are restarted often must not pay for
+// building every base.
+type baseSpec struct {
+	name  string
+	t     *reftx.Tx
+	force bool
+}
+
+func (s *baseSpec) build(thorough bool) *base {
+	b := mkBase(s.name, s.t, s.force)
+	if len(b.enc) <= 600 || thorough {
+		b.pos8 = allPos(len(b.enc))
+	} else {
+		b.pos8 = structural(&b)
 	}
+	return &b
+}
+
+func mkBase2(name string, t *reftx.Tx, force bool) baseSpec { return baseSpec{name, t, force} }
+
+func buildBases(thorough bool) []baseSpec {
+	var l []baseSpec
+	add := func(b baseSpec) { l = append(l, b) }
 	longs := []int{252, 253, 10000}
+	maxN := 2 // quick: 0..2 inputs / outputs; thorough: 0..3
+	if thorough {
+		maxN = 3
+	}
 	// A. legacy shapes
-	for nin := 0; nin <= 3; nin++ {
-		for nout := 0; nout <= 3; nout++ {
+	for nin := 0; nin <= maxN; nin++ {
+		for nout := 0; nout <= maxN; nout++ {
 			slots := nin + nout
 			mk := func(lens []int) *reftx.Tx {
 				t := &reftx.Tx{Version: 2, LockTime: 0x65}
@@ -120,7 +135,7 @@ func buildBases(thorough bool) []base {
 				for k := range lens {
 					lens[k] = (m >> uint(k)) & 1
 				}
-				add(mkBase(fmt.Sprintf("legacy/%din%dout/len-mask-%d", nin, nout, m), mk(lens), false))
+				add(mkBase2(fmt.Sprintf("legacy/%din%dout/len-mask-%d", nin, nout, m), mk(lens), false))
 			}
 			for s := 0; s < slots; s++ {
 				for _, L := range longs {
@@ -132,7 +147,7 @@ func buildBases(thorough bool) []base {
 						lens[k] = 1
 					}
 					lens[s] = L
-					add(mkBase(fmt.Sprintf("legacy/%din%dout/slot%d-len%d", nin, nout, s, L), mk(lens), false))
+					add(mkBase2(fmt.Sprintf("legacy/%din%dout/slot%d-len%d", nin, nout, s, L), mk(lens), false))
 				}
 			}
 		}
@@ -144,7 +159,7 @@ func buildBases(thorough bool) []base {
 		for i := 0; i < nout; i++ {
 			t.Out = append(t.Out, mkOut(i, 1))
 		}
-		add(mkBase(fmt.Sprintf("coinbase/%dout", nout), t, false))
+		add(mkBase2(fmt.Sprintf("coinbase/%dout", nout), t, false))
 	}
 	{
 		t := &reftx.Tx{Version: 1}
@@ -152,11 +167,11 @@ func buildBases(thorough bool) []base {
 		in.Witness = [][]byte{make([]byte, 32)}
 		t.In = append(t.In, in)
 		t.Out = append(t.Out, mkOut(0, 1), reftx.Out{Value: 0, Script: fill(38, 0x6a)})
-		add(mkBase("coinbase/segwit", t, false))
+		add(mkBase2("coinbase/segwit", t, false))
 	}
 	// C. segwit shapes: every witness item-count vector in {0..3}^nin
-	for nin := 0; nin <= 3; nin++ {
-		for nout := 0; nout <= 3; nout++ {
+	for nin := 0; nin <= maxN; nin++ {
+		for nout := 0; nout <= maxN; nout++ {
 			nv := 1
 			for i := 0; i < nin; i++ {
 				nv *= 4
@@ -176,7 +191,7 @@ func buildBases(thorough bool) []base {
 				for i := 0; i < nout; i++ {
 					t.Out = append(t.Out, mkOut(i, 1))
 				}
-				add(mkBase(fmt.Sprintf("segwit/%din%dout/stack-vector-%d", nin, nout, v), t, true))
+				add(mkBase2(fmt.Sprintf("segwit/%din%dout/stack-vector-%d", nin, nout, v), t, true))
 			}
 		}
 	}
@@ -197,9 +212,9 @@ func buildBases(thorough bool) []base {
 			for j := 0; j < k; j++ {
 				st = append(st, fill((m>>uint(j))&1, byte(0x40+j)))
 			}
-			add(mkBase(fmt.Sprintf("segwit/1in1out/items%d-len-mask-%d", k, m), mkw(st), true))
+			add(mkBase2(fmt.Sprintf("segwit/1in1out/items%d-len-mask-%d", k, m), mkw(st), true))
 			if k <= 2 {
-				add(mkBase(fmt.Sprintf("segwit/2in1out/empty+items%d-len-mask-%d", k, m), mkw([][]byte{}, st), true))
+				add(mkBase2(fmt.Sprintf("segwit/2in1out/empty+items%d-len-mask-%d", k, m), mkw([][]byte{}, st), true))
 			}
 		}
 	}
@@ -217,7 +232,7 @@ func buildBases(thorough bool) []base {
 					}
 					st = append(st, fill(n, byte(0x40+q)))
 				}
-				add(mkBase(fmt.Sprintf("segwit/1in1out/items%d-item%d-len%d", k, j, L), mkw(st), true))
+				add(mkBase2(fmt.Sprintf("segwit/1in1out/items%d-item%d-len%d", k, j, L), mkw(st), true))
 			}
 		}
 	}
@@ -396,6 +411,10 @@ func buildBlocks(thorough bool) []bbase {
 		hdr = append(hdr, byte(0xc0+i%32))
 	}
 	var l []bbase
+	maxTx := 2
+	if thorough {
+		maxTx = 3
+	}
 	mk := func(name string, txs [][]byte) {
 		b := bbase{name: name, count: len(txs), csLen: 1}
 		b.enc = append(append([]byte{}, hdr...), byte(len(txs)))
@@ -418,7 +437,7 @@ func buildBlocks(thorough bool) []bbase {
 			name += "/" + names[x]
 		}
 		mk(name, txs)
-		if len(prefix) < 3 {
+		if len(prefix) < maxTx {
 			for x := range good {
 				rec(append(append([]int{}, prefix...), x))
 			}
